@@ -16,7 +16,8 @@ LEVEL = 'exploration'
 STEP_UNIT = 'producer pulls (successful next()/index productions)'
 CASE_TIMEOUT = 60
 TIERS = {'quick': (300000, 150), 'thorough': (10000000, 1800)}
-PROBES = ['unbounded_rendered', 'fault_fired', 'window_past_end',
+PROBES = ['sized_iterable_producer', 'false_reverse_expr',
+          'previous_batches_evaluated', 'unbounded_rendered', 'fault_fired', 'window_past_end',
           'lookahead_probe_reached', 'else_rendered', 'prev_lookback_overpull',
           'lazyseq_len_called', 'start_beyond_stream', 'prev_flag', 'next_flag']
 RULE = ('seeded sampling of (start,end in -1..16; size -1..7; orphan 0..4; '
@@ -119,6 +120,14 @@ class IterableOnly:
         return Iter(self.c, self.mk)
 
 
+class SizedIterable(IterableOnly):
+    """a paged result set: knows its size without producing anything, but
+    has no subscription"""
+
+    def __len__(self):
+        return self.c.n
+
+
 def gen(c, mk):
     while True:
         r = c.produce(mk)
@@ -189,8 +198,12 @@ def gen_case(seed, tier):
             case['params']['overlap'] = val(0, 3)
         f = r.random()
         case['flag'] = 'previous' if f < 0.12 else 'next' if f < 0.24 else None
-    kind = r.choice(['gen', 'genfunc', 'iter', 'iterable', 'lazyseq'])
-    unbounded = batched and r.random() < 0.3
+    kind = r.choice(['gen', 'genfunc', 'iter', 'iterable', 'lazyseq',
+                     'sized'])
+    unbounded = batched and r.random() < 0.3 and kind != 'sized'
+    # a reverse_expr that evaluates false asks for no reversal
+    case['revexpr'] = r.choice([None] * 6 + [0, '', None])
+    case['has_revexpr'] = r.random() < 0.15
     n = None if unbounded else r.choice([0, 1, 2, 3, 5, 8, 13, 14,
                                          r.randint(0, 14), r.randint(0, 40)])
     if big and n is not None and r.random() < 0.7:
@@ -215,6 +228,8 @@ def source_of(case):
         a.append('mapping')
     if case['prefix']:
         a.append('prefix=%s' % case['prefix'])
+    if case.get('has_revexpr'):
+        a.append('reverse_expr="rv0"')
     kind = case['items']
     if case['flag'] == 'previous':
         body = ('P<dtml-var previous-sequence-start-index>-'
@@ -310,9 +325,11 @@ def run_case(case):
         seq = Iter(c, mk)
     elif kind == 'iterable':
         seq = IterableOnly(c, mk)
+    elif kind == 'sized':
+        seq = SizedIterable(c, mk)
     else:
         seq = LazySeq(c, mk)
-    ns = {'seq': seq, 'seq2': seq}
+    ns = {'seq': seq, 'seq2': seq, 'rv0': case.get('revexpr')}
     if kind == 'genfunc':
         ns['seq2'] = seq()       # expressions get names uncalled
     for p, (how, v) in case['params'].items():
@@ -353,6 +370,12 @@ def run_case(case):
         probe('else_rendered')
     if case['flag']:
         probe(case['flag'][:4] + '_flag')
+    if kind == 'sized':
+        probe('sized_iterable_producer')
+    if case.get('has_revexpr'):
+        probe('false_reverse_expr')
+    if ';' in out and re.search(r'b\d+-\d+;', out):
+        probe('previous_batches_evaluated')
 
     def viol(rule, key, **detail):
         detail.update(source=src, producer=pr, pulls=c.pulls,
